@@ -1,1 +1,513 @@
-//! ntpd facade fragment "keys": re-exports / wrappers (and per-run thread-local seams) for the world that owns it.
+//! ntpd facade fragment "keys" (owned by world w5): re-exports of the key
+//! provider plus the simulated disk ("simfs") and the simulator-released park
+//! that replace `std::fs::{File, OpenOptions}` and `std::thread::sleep` in
+//! `ntpd/src/daemon/nts_key_provider.rs` under the verif cfg (hook H10).
+//!
+//! No dependency on simkit: the world mounts a [`Disk`] under an id, the code
+//! under test reaches it through paths of the form `/verif-simfs/<id>/<file>`.
+//! The registry is process-global (not thread-local) because the provider's
+//! rotation loop runs in tokio's blocking pool, i.e. on another OS thread than
+//! the simulated run; ids are unique per run, so parallel runs never share a
+//! disk. Every fault decision is made beforehand by the world (the [`Plan`]),
+//! every operation is recorded in an op log that the world drains and puts
+//! into the run's event log, and the other thread only ever runs while the
+//! simulator thread waits for it (strict hand-over through [`Disk::release`] /
+//! [`Disk::wait_parked`]), so the schedule stays a function of the seed.
+
+use std::collections::BTreeMap;
+use std::io;
+use std::sync::{Arc, Condvar, Mutex};
+use std::time::Duration;
+
+pub use super::super::config::KeysetConfig;
+pub use super::super::nts_key_provider::spawn as spawn_key_provider;
+
+pub const ROOT: &str = "/verif-simfs/";
+
+#[derive(Clone, Debug, PartialEq, Eq)]
+pub struct SimFile {
+    pub data: Vec<u8>,
+    pub mode: u32,
+}
+
+/// What one `write` call does (consumed in order; exhausted script = `Full`).
+#[derive(Clone, Copy, Debug, PartialEq, Eq)]
+pub enum WriteStep {
+    Full,
+    /// accept only this many bytes (at least 1, less than offered)
+    Short(usize),
+    /// fail once with `ErrorKind::Interrupted` (nothing written)
+    Eintr,
+    /// fail with ENOSPC (nothing written)
+    Enospc,
+    /// fail with EIO (nothing written)
+    Eio,
+}
+
+/// What one `read` call does (consumed in order; exhausted script = `Full`).
+#[derive(Clone, Copy, Debug, PartialEq, Eq)]
+pub enum ReadStep {
+    Full,
+    Short(usize),
+    Eintr,
+    Eio,
+}
+
+#[derive(Clone, Copy, Debug, PartialEq, Eq)]
+pub enum OpenFault {
+    NotFound,
+    PermissionDenied,
+}
+
+/// Faults the world planned for the operations to come.
+#[derive(Clone, Debug, Default)]
+pub struct Plan {
+    /// the process dies instead of performing the next truncating open
+    pub crash_before_open: bool,
+    /// the process dies once this many bytes were accepted after the next
+    /// truncating open (0 = right after the open; may cut inside one write)
+    pub crash_after_bytes: Option<u64>,
+    pub write_script: Vec<WriteStep>,
+    pub read_script: Vec<ReadStep>,
+    /// the next open for writing fails with this error
+    pub open_write_fault: Option<OpenFault>,
+}
+
+#[derive(Clone, Debug, PartialEq, Eq)]
+pub enum Op {
+    OpenRead { file: String, found: bool, len: usize },
+    OpenWrite { file: String, create: bool, truncate: bool, mode: Option<u32>, created: bool, old_len: usize, err: Option<&'static str> },
+    Write { file: String, offered: usize, accepted: usize, err: Option<&'static str> },
+    Read { file: String, asked: usize, got: usize, err: Option<&'static str> },
+    Close { file: String, writable: bool },
+    Crash { file: String, bytes_after_open: u64 },
+    /// an operation attempted by a process that is already dead (no effect)
+    Zombie { what: &'static str },
+    Park { zero: bool },
+}
+
+#[derive(Default)]
+struct Inner {
+    files: BTreeMap<String, SimFile>,
+    ops: Vec<Op>,
+    plan: Plan,
+    write_pos: usize,
+    read_pos: usize,
+    /// armed by the truncating open when `plan.crash_after_bytes` is set
+    crash_countdown: Option<u64>,
+    bytes_after_open: u64,
+    frozen: bool,
+    zombie_ops: u64,
+    parked: bool,
+    parks: u64,
+    releases: u64,
+    last_park: Option<Duration>,
+    on_release: Option<Arc<dyn Fn(u64) + Send + Sync>>,
+}
+
+pub struct Disk {
+    id: String,
+    inner: Mutex<Inner>,
+    cv: Condvar,
+}
+
+static REGISTRY: Mutex<BTreeMap<String, Arc<Disk>>> = Mutex::new(BTreeMap::new());
+
+thread_local! {
+    /// disk touched last by this thread (tells `sleep` whose park this is)
+    static LAST_DISK: std::cell::RefCell<Option<Arc<Disk>>> = const { std::cell::RefCell::new(None) };
+}
+
+/// Create and register a fresh disk under `id`.
+pub fn mount(id: &str) -> Arc<Disk> {
+    let d = Arc::new(Disk {
+        id: id.to_string(),
+        inner: Mutex::new(Inner::default()),
+        cv: Condvar::new(),
+    });
+    REGISTRY.lock().unwrap().insert(id.to_string(), d.clone());
+    d
+}
+
+pub fn unmount(id: &str) {
+    REGISTRY.lock().unwrap().remove(id);
+    LAST_DISK.with(|l| *l.borrow_mut() = None);
+}
+
+fn resolve(path: &str) -> Option<(Arc<Disk>, String)> {
+    let rest = path.strip_prefix(ROOT)?;
+    let (id, file) = rest.split_once('/')?;
+    let d = REGISTRY.lock().unwrap().get(id).cloned()?;
+    LAST_DISK.with(|l| *l.borrow_mut() = Some(d.clone()));
+    Some((d, file.to_string()))
+}
+
+fn errno(kind: &'static str) -> io::Error {
+    match kind {
+        "ENOSPC" => io::Error::from_raw_os_error(libc::ENOSPC),
+        "EIO" => io::Error::from_raw_os_error(libc::EIO),
+        "EINTR" => io::Error::from(io::ErrorKind::Interrupted),
+        "ENOENT" => io::Error::from(io::ErrorKind::NotFound),
+        "EACCES" => io::Error::from(io::ErrorKind::PermissionDenied),
+        _ => io::Error::other(kind),
+    }
+}
+
+impl Disk {
+    pub fn path(&self, file: &str) -> String {
+        format!("{ROOT}{}/{file}", self.id)
+    }
+
+    pub fn put_file(&self, file: &str, data: Vec<u8>, mode: u32) {
+        self.inner.lock().unwrap().files.insert(file.to_string(), SimFile { data, mode });
+    }
+
+    pub fn remove_file(&self, file: &str) {
+        self.inner.lock().unwrap().files.remove(file);
+    }
+
+    pub fn file(&self, file: &str) -> Option<SimFile> {
+        self.inner.lock().unwrap().files.get(file).cloned()
+    }
+
+    /// Install the fault plan for the operations to come (scripts restart at 0).
+    pub fn set_plan(&self, plan: Plan) {
+        let mut i = self.inner.lock().unwrap();
+        i.plan = plan;
+        i.write_pos = 0;
+        i.read_pos = 0;
+        i.crash_countdown = None;
+    }
+
+    pub fn take_ops(&self) -> Vec<Op> {
+        std::mem::take(&mut self.inner.lock().unwrap().ops)
+    }
+
+    /// The process using this disk is dead: every further operation fails
+    /// without effect (recorded as `Op::Zombie`).
+    pub fn freeze(&self) {
+        self.inner.lock().unwrap().frozen = true;
+    }
+
+    pub fn frozen(&self) -> bool {
+        self.inner.lock().unwrap().frozen
+    }
+
+    /// A new process starts: operations work again, no plan, counters reset.
+    pub fn thaw(&self) {
+        let mut i = self.inner.lock().unwrap();
+        i.frozen = false;
+        i.zombie_ops = 0;
+        i.plan = Plan::default();
+        i.write_pos = 0;
+        i.read_pos = 0;
+        i.crash_countdown = None;
+        i.parked = false;
+    }
+
+    /// Run `f(release_number)` on the parked thread right after each release
+    /// (the world uses it to seed that thread's `rand` shim).
+    pub fn set_on_release(&self, f: Arc<dyn Fn(u64) + Send + Sync>) {
+        self.inner.lock().unwrap().on_release = Some(f);
+    }
+
+    /// Block until the code under test sits in its rotation sleep. Returns the
+    /// requested sleep, or None on (real-time) timeout = harness trouble.
+    pub fn wait_parked(&self, real_timeout: Duration) -> Option<Duration> {
+        let mut i = self.inner.lock().unwrap();
+        let deadline = std::time::Instant::now() + real_timeout;
+        while !i.parked {
+            let left = deadline.checked_duration_since(std::time::Instant::now())?;
+            let (g, _) = self.cv.wait_timeout(i, left).unwrap();
+            i = g;
+        }
+        i.last_park
+    }
+
+    pub fn is_parked(&self) -> bool {
+        self.inner.lock().unwrap().parked
+    }
+
+    /// Let the parked rotation loop continue ("the interval elapsed").
+    pub fn release(&self) {
+        let mut i = self.inner.lock().unwrap();
+        i.parked = false;
+        i.releases += 1;
+        self.cv.notify_all();
+    }
+
+    /// Block until a dead process attempted `n` operations (used to wait for a
+    /// zombie rotation loop to run into the frozen disk and exit).
+    pub fn wait_zombie_ops(&self, n: u64, real_timeout: Duration) -> bool {
+        let mut i = self.inner.lock().unwrap();
+        let deadline = std::time::Instant::now() + real_timeout;
+        while i.zombie_ops < n {
+            let Some(left) = deadline.checked_duration_since(std::time::Instant::now()) else {
+                return false;
+            };
+            let (g, _) = self.cv.wait_timeout(i, left).unwrap();
+            i = g;
+        }
+        true
+    }
+
+    fn zombie(&self, i: &mut Inner, what: &'static str) -> io::Error {
+        i.zombie_ops += 1;
+        i.ops.push(Op::Zombie { what });
+        self.cv.notify_all();
+        io::Error::other("verif: process is dead")
+    }
+}
+
+/// Replacement for `std::thread::sleep` in the rotation loop: park until the
+/// simulator releases this thread.
+pub fn sleep(d: Duration) {
+    let Some(disk) = LAST_DISK.with(|l| l.borrow().clone()) else {
+        // not under the simulated disk: behave like the real thing
+        std::thread::sleep(d);
+        return;
+    };
+    let (cb, n) = {
+        let mut i = disk.inner.lock().unwrap();
+        i.parked = true;
+        i.parks += 1;
+        i.last_park = Some(d);
+        i.ops.push(Op::Park { zero: d.is_zero() });
+        let target = i.parks;
+        disk.cv.notify_all();
+        while i.releases < target {
+            i = disk.cv.wait(i).unwrap();
+        }
+        (i.on_release.clone(), i.releases)
+    };
+    if let Some(cb) = cb {
+        cb(n);
+    }
+}
+
+/// Stand-in for `std::fs::File` (read side: a snapshot taken at open; write
+/// side: writes go to the disk's as-written contents immediately).
+pub struct File {
+    disk: Arc<Disk>,
+    name: String,
+    pos: usize,
+    snapshot: Vec<u8>,
+    writable: bool,
+}
+
+impl File {
+    pub fn open(path: impl AsRef<std::path::Path>) -> io::Result<File> {
+        let p = path.as_ref().to_string_lossy().to_string();
+        let Some((disk, name)) = resolve(&p) else {
+            return Err(errno("ENOENT"));
+        };
+        let snapshot = {
+            let mut i = disk.inner.lock().unwrap();
+            if i.frozen {
+                return Err(disk.zombie(&mut i, "open-read"));
+            }
+            let found = i.files.get(&name).map(|f| f.data.clone());
+            i.ops.push(Op::OpenRead { file: name.clone(), found: found.is_some(), len: found.as_ref().map(|d| d.len()).unwrap_or(0) });
+            match found {
+                Some(d) => d,
+                None => return Err(errno("ENOENT")),
+            }
+        };
+        Ok(File { disk, name, pos: 0, snapshot, writable: false })
+    }
+}
+
+impl io::Read for File {
+    fn read(&mut self, buf: &mut [u8]) -> io::Result<usize> {
+        let mut i = self.disk.inner.lock().unwrap();
+        if i.frozen {
+            return Err(self.disk.zombie(&mut i, "read"));
+        }
+        let step = i.plan.read_script.get(i.read_pos).copied().unwrap_or(ReadStep::Full);
+        i.read_pos += 1;
+        let avail = self.snapshot.len() - self.pos;
+        let mut n = avail.min(buf.len());
+        let mut err = None;
+        match step {
+            ReadStep::Full => {}
+            ReadStep::Short(k) => {
+                if n > 1 {
+                    n = k.clamp(1, n - 1);
+                }
+            }
+            ReadStep::Eintr => err = Some("EINTR"),
+            ReadStep::Eio => err = Some("EIO"),
+        }
+        if let Some(e) = err {
+            i.ops.push(Op::Read { file: self.name.clone(), asked: buf.len(), got: 0, err: Some(e) });
+            return Err(errno(e));
+        }
+        buf[..n].copy_from_slice(&self.snapshot[self.pos..self.pos + n]);
+        self.pos += n;
+        i.ops.push(Op::Read { file: self.name.clone(), asked: buf.len(), got: n, err: None });
+        Ok(n)
+    }
+}
+
+impl io::Write for File {
+    fn write(&mut self, buf: &[u8]) -> io::Result<usize> {
+        let mut i = self.disk.inner.lock().unwrap();
+        if i.frozen {
+            return Err(self.disk.zombie(&mut i, "write"));
+        }
+        if !self.writable {
+            return Err(io::Error::from_raw_os_error(libc::EBADF));
+        }
+        if buf.is_empty() {
+            return Ok(0);
+        }
+        // a pending crash point that is already reached (e.g. 0 bytes) fires first
+        if i.crash_countdown == Some(0) {
+            i.frozen = true;
+            let b = i.bytes_after_open;
+            i.ops.push(Op::Crash { file: self.name.clone(), bytes_after_open: b });
+            return Err(io::Error::other("verif: simulated crash"));
+        }
+        let step = i.plan.write_script.get(i.write_pos).copied().unwrap_or(WriteStep::Full);
+        i.write_pos += 1;
+        let mut n = buf.len();
+        let mut err = None;
+        match step {
+            WriteStep::Full => {}
+            WriteStep::Short(k) => {
+                if n > 1 {
+                    n = k.clamp(1, n - 1);
+                }
+            }
+            WriteStep::Eintr => err = Some("EINTR"),
+            WriteStep::Enospc => err = Some("ENOSPC"),
+            WriteStep::Eio => err = Some("EIO"),
+        }
+        if let Some(e) = err {
+            i.ops.push(Op::Write { file: self.name.clone(), offered: buf.len(), accepted: 0, err: Some(e) });
+            return Err(errno(e));
+        }
+        let mut crashed = false;
+        if let Some(left) = i.crash_countdown {
+            if (n as u64) >= left {
+                n = left as usize;
+                crashed = true;
+            }
+        }
+        let pos = self.pos;
+        {
+            let f = i.files.entry(self.name.clone()).or_insert(SimFile { data: vec![], mode: 0 });
+            if f.data.len() < pos + n {
+                f.data.resize(pos + n, 0);
+            }
+            f.data[pos..pos + n].copy_from_slice(&buf[..n]);
+        }
+        self.pos += n;
+        i.bytes_after_open += n as u64;
+        if let Some(left) = i.crash_countdown.as_mut() {
+            *left -= n as u64;
+        }
+        i.ops.push(Op::Write { file: self.name.clone(), offered: buf.len(), accepted: n, err: None });
+        if crashed {
+            i.frozen = true;
+            let b = i.bytes_after_open;
+            i.ops.push(Op::Crash { file: self.name.clone(), bytes_after_open: b });
+            return Err(io::Error::other("verif: simulated crash"));
+        }
+        Ok(n)
+    }
+
+    fn flush(&mut self) -> io::Result<()> {
+        Ok(())
+    }
+}
+
+impl Drop for File {
+    fn drop(&mut self) {
+        let mut i = self.disk.inner.lock().unwrap();
+        if !i.frozen {
+            i.ops.push(Op::Close { file: self.name.clone(), writable: self.writable });
+        }
+    }
+}
+
+/// Stand-in for `std::fs::OpenOptions` + `std::os::unix::fs::OpenOptionsExt`.
+#[derive(Clone, Debug, Default)]
+pub struct OpenOptions {
+    create: bool,
+    truncate: bool,
+    write: bool,
+    read: bool,
+    mode: Option<u32>,
+}
+
+impl OpenOptions {
+    pub fn new() -> OpenOptions {
+        OpenOptions::default()
+    }
+    pub fn create(&mut self, v: bool) -> &mut Self {
+        self.create = v;
+        self
+    }
+    pub fn truncate(&mut self, v: bool) -> &mut Self {
+        self.truncate = v;
+        self
+    }
+    pub fn write(&mut self, v: bool) -> &mut Self {
+        self.write = v;
+        self
+    }
+    pub fn read(&mut self, v: bool) -> &mut Self {
+        self.read = v;
+        self
+    }
+    pub fn mode(&mut self, m: u32) -> &mut Self {
+        self.mode = Some(m);
+        self
+    }
+    pub fn open(&self, path: impl AsRef<std::path::Path>) -> io::Result<File> {
+        let p = path.as_ref().to_string_lossy().to_string();
+        let Some((disk, name)) = resolve(&p) else {
+            return Err(errno("ENOENT"));
+        };
+        let snapshot;
+        {
+            let mut i = disk.inner.lock().unwrap();
+            if i.frozen {
+                return Err(disk.zombie(&mut i, "open-write"));
+            }
+            if self.write && self.truncate && i.plan.crash_before_open {
+                i.plan.crash_before_open = false;
+                i.frozen = true;
+                i.ops.push(Op::Crash { file: name.clone(), bytes_after_open: 0 });
+                return Err(io::Error::other("verif: simulated crash"));
+            }
+            let exists = i.files.contains_key(&name);
+            let old_len = i.files.get(&name).map(|f| f.data.len()).unwrap_or(0);
+            let fault = if self.write { i.plan.open_write_fault.take() } else { None };
+            let err = match fault {
+                Some(OpenFault::NotFound) => Some("ENOENT"),
+                Some(OpenFault::PermissionDenied) => Some("EACCES"),
+                None if !exists && !self.create => Some("ENOENT"),
+                None => None,
+            };
+            let created = err.is_none() && !exists;
+            i.ops.push(Op::OpenWrite { file: name.clone(), create: self.create, truncate: self.truncate, mode: self.mode, created, old_len, err });
+            if let Some(e) = err {
+                return Err(errno(e));
+            }
+            if created {
+                // like the OS: the mode argument only applies when the file is created
+                // (default 0o666 as std does; umask is not modelled)
+                i.files.insert(name.clone(), SimFile { data: vec![], mode: self.mode.unwrap_or(0o666) });
+            }
+            if self.write && self.truncate {
+                i.files.get_mut(&name).unwrap().data.clear();
+                i.bytes_after_open = 0;
+                i.crash_countdown = i.plan.crash_after_bytes.take();
+            }
+            snapshot = i.files.get(&name).map(|f| f.data.clone()).unwrap_or_default();
+        }
+        Ok(File { disk, name, pos: 0, snapshot, writable: self.write })
+    }
+}
